@@ -59,6 +59,7 @@ type tamper struct {
 	Offset int    `json:"offset"` // byte offset inside the sealed frame (flip), bytes kept (trunc-mid), byte of the eph key (eph-flip)
 	Bit    uint   `json:"bit"`
 	Class  string `json:"class"` // tag | length | data | padding (flip)
+	Dist   int    `json:"dist"`  // replay-far: the recorded frame k is put in the place of frame k+dist
 }
 
 // relayDir is one direction of the relay: the sender's Write lands here, the
@@ -72,6 +73,7 @@ type relayDir struct {
 	ephDone bool
 	idx     int    // index of the next frame to arrive
 	held    []byte // frame held back for a swap
+	saved   []byte // frame recorded for a replay at a distance
 	dead    bool   // after truncation
 	closed  bool
 	applied bool // the plan's action has been executed
@@ -143,6 +145,16 @@ func (r *relayDir) frame(fr []byte) {
 			r.emit(append([]byte{}, fr...))
 			r.applied = true
 		}
+	case "replay-far":
+		if k == t.Frame {
+			r.saved = append([]byte{}, fr...)
+		}
+		if k == t.Frame+t.Dist && r.saved != nil {
+			r.emit(r.saved) // the genuine frame k+dist is withheld
+			r.applied = true
+			return
+		}
+		r.emit(fr)
 	case "swap":
 		if k == t.Frame {
 			r.held = fr
